@@ -35,6 +35,11 @@ PROBES = [
      {'identifier_case': 'lower', 'use_space_around_operators': True,
       'strip_whitespace': True}),
     ('tokens', 'select zork, FOOBAR, @v, \x01 from t where a <=> 2', {}),
+    ('format', 'select a+b, c>=1 from t where d=2 and e||f<>g',
+     {'use_space_around_operators': True}),
+    ('format', 'select a, b from t where x in (1,2) -- c\norder by 1',
+     {'strip_comments': True}),
+    ('process', 'recursionlimit+switchinterval', {}),
 ]
 
 
@@ -61,6 +66,9 @@ def observe(sqlparse, probe):
             return sqlparse.format(text, **dict(opts))
         if api == 'tokens':
             return [(str(tt), v) for tt, v in sqlparse.lexer.tokenize(text)]
+        if api == 'process':
+            # process-wide settings the library has no business changing
+            return [sys.getrecursionlimit()]
     except Exception as exc:
         return 'EXC ' + type(exc).__name__ + ': ' + str(exc)[:80]
 
